@@ -414,6 +414,19 @@ func dangle(rt_ *rapid.T, d *m.Design) string {
 						g.Metadata = append(append([]m.Mapping{}, g.Metadata...), m.Mapping{Attr: "no_such_attribute"})
 					}})
 				}
+				if meth.Payload != nil && d.ObjectFields(meth.Payload) != nil {
+					sites = append(sites, site{"gRPC request Message listing a missing payload attribute in " + meth.Name, func() {
+						g.Message = append(append([]string{}, g.Message...), "no_such_attribute")
+					}})
+					sites = append(sites, site{"gRPC request Message listing only a missing payload attribute in " + meth.Name, func() {
+						g.Message = []string{"no_such_attribute"}
+					}})
+				}
+				if meth.Result != nil && d.ObjectFields(meth.Result) != nil {
+					sites = append(sites, site{"gRPC response Message listing a missing result attribute in " + meth.Name, func() {
+						g.RespMessage = append(append([]string{}, g.RespMessage...), "no_such_attribute")
+					}})
+				}
 				if meth.Result != nil && d.ObjectFields(meth.Result) != nil {
 					sites = append(sites, site{"gRPC response header mapped to a missing result attribute in " + meth.Name, func() {
 						g.Headers = append(append([]m.Mapping{}, g.Headers...), m.Mapping{Attr: "no_such_attribute"})
